@@ -1,6 +1,6 @@
 (* Props/C15.v — ignore patterns are an exact filter; results do not depend
    on the cwd.  Only statements; every proof is [exact <lemma>]. *)
-From AL Require Import Base.Str Out.Paths Out.PathsProofs Out.Filter Out.FilterProofs.
+From AL Require Import Base.Str Out.Paths Out.PathsProofs Out.Filter Out.FilterProofs Multi.Project Out.MultiRoot.
 From Coq Require Import Permutation.
 
 (* The output of filterErrors is exactly the unfiltered list minus the
@@ -71,6 +71,58 @@ Theorem C15_path_applicability_old_refuted : exists cwd root arg suffix,
   cfg_path_old cwd root arg <> mkPath false suffix.
 Proof. exact path_applicability_old_refuted. Qed.
 Print Assumptions C15_path_applicability_old_refuted.
+
+(* ---- several repositories in one run (side by side or nested): the
+   configuration consulted for a file is that of the NEAREST enclosing
+   repository root, whatever was resolved before it ... *)
+Theorem C15_multi_repo_nearest : forall (pat glob : Type) (rs : list (repo pat glob)) history cwd arg,
+  match project_of pat glob rs (known_after (roots pat glob rs) history) cwd arg with
+  | Some r => nearest_root (roots pat glob rs) (p_comps (abs_path cwd arg)) r
+  | None => forall r, is_root (roots pat glob rs) r = true -> is_prefix r (p_comps (abs_path cwd arg)) = false
+  end.
+Proof. exact project_of_nearest. Qed.
+Print Assumptions C15_multi_repo_nearest.
+
+(* ... every file of a multi-file run gets exactly the result it gets alone
+   (any order of the arguments, any cache contents) ... *)
+Theorem C15_multi_repo_each_alone : forall (pat msg glob : Type) (matches : pat -> msg -> bool)
+    (glob_match : glob -> string -> bool) rs known cli cwd files i arg es,
+  nth_error files i = Some (arg, es) ->
+  nth_error (check_files pat msg glob matches glob_match rs known cli cwd files) i
+  = Some (check_file pat msg glob matches glob_match rs [] cli cwd arg es).
+Proof. exact check_files_each_alone. Qed.
+Print Assumptions C15_multi_repo_each_alone.
+
+(* ... and its result is the unfiltered list minus what a -ignore pattern or a
+   pattern of an entry of THAT repository's configuration matches, the entry's
+   glob being matched against the path below THAT root *)
+Theorem C15_multi_repo_filter_exact : forall (pat msg glob : Type) (matches : pat -> msg -> bool)
+    (glob_match : glob -> string -> bool) rs known cli cwd arg es r paths suffix,
+  clean_abs cwd -> names r ->
+  project_of pat glob rs known cwd arg = Some r ->
+  repo_lookup pat glob rs r = Some (Some paths) ->
+  abs_path cwd arg = mkPath true (r ++ suffix) ->
+  check_file pat msg glob matches glob_match rs known cli cwd arg es =
+  filter (fun e => negb (ignored pat msg matches cli
+                           (path_configs pat glob glob_match paths (show_path (mkPath false suffix))) e))
+         (sort_d msg es).
+Proof. exact multi_filter_exact. Qed.
+Print Assumptions C15_multi_repo_filter_exact.
+
+Theorem C15_multi_repo_example :
+  let rs : list (repo nat nat) :=
+    [(["w"; "repo"], Some [(1, [7])]); (["w"; "repo"; "nested"; "inner"], Some [(1, [8])])] in
+  let gm := fun (g : nat) (p : string) => String.eqb p ".github/workflows/e.yml" in
+  let es := [mkDiag 3%N 1%N 7; mkDiag 4%N 1%N 8] in
+  let cwd := mkPath true ["w"] in
+  check_file nat nat nat Nat.eqb gm rs [["w"; "repo"]] [] cwd
+             (mkPath false ["repo"; "nested"; "inner"; ".github"; "workflows"; "e.yml"]) es
+  = [mkDiag 3%N 1%N 7] /\
+  check_file nat nat nat Nat.eqb gm rs [] [] cwd
+             (mkPath false ["repo"; ".github"; "workflows"; "e.yml"]) es
+  = [mkDiag 4%N 1%N 8].
+Proof. exact multi_root_example. Qed.
+Print Assumptions C15_multi_repo_example.
 
 Theorem C15_exit_status_spec : forall fo ver lo,
   let s := main_status fo ver lo in
